@@ -250,6 +250,20 @@ def run(prog, chk):
                 if outer['k'] == 'for':
                     fr = full_range_for(outer)
                     okb = bool(fr) and SX.show(fr[1]).replace(' ', '').endswith('->fields.size()')
+                    if fr and not okb:
+                        # the slots the class layout describes: `const size_t n = std::min(obj->fields.size(), cls->instanceFields.size());`
+                        # (the sweep used to skip the slots past the layout one by one)
+                        b_ = SX.strip(fr[1])
+                        while SX.is_node(b_) and b_.get('k') == 'cast':
+                            b_ = SX.strip(b_['e'])
+                        if SX.is_node(b_) and b_.get('k') == 'ref' and b_.get('kind') == 'var':
+                            dv = [d_ for d_ in SX.walk(gf.body) if d_.get('k') == 'var' and d_.get('id') == b_.get('id') and SX.is_node(d_.get('init'))]
+                            wr = [1 for y_ in SX.walk(gf.body) for w_ in [SX.write_target(y_)] if w_ and SX.is_node(SX.strip(w_[0])) and SX.strip(w_[0]).get('id') == b_.get('id')]
+                            i_ = SX.strip(dv[0]['init']) if len(dv) == 1 and not wr else None
+                            if SX.is_node(i_) and i_.get('k') == 'call' and (i_.get('callee') or '').split('<')[0] == 'std::min' and \
+                                    any(SX.show(SX.strip(a_)).replace(' ', '').endswith('->fields.size()') for a_ in SX.real_args(i_)) and \
+                                    any('instanceFields.size()' in SX.show(SX.strip(a_)).replace(' ', '') for a_ in SX.real_args(i_)):
+                                okb = True
                 elif outer['k'] == 'forrange':
                     okb = SX.show(outer['range']).replace(' ', '').endswith('->fields')
                 else:
